@@ -46,9 +46,24 @@ ALL_TYPES = [SimulatorInterface.STARTING_EVENT, SimulatorInterface.START_EVENT,
 class Monitor(EventListener):
     def __init__(self):
         self.log = []        # (name, timestamp or None)
+        self.sim = None
+        self.at_end = []     # what a listener sees / may do while END_REPLICATION is delivered
 
     def notify(self, event):
         self.log.append((event.event_type.name, getattr(event, "timestamp", None)))
+        if event.event_type.name == "END_REPLICATION_EVENT" and self.sim is not None:
+            sim = self.sim
+            seen = (sim.run_state, sim.replication_state)
+            res = []
+            for cmd in (sim.start, sim.step, sim.stop):
+                try:
+                    cmd()
+                    res.append("ok")
+                except DSOLError:
+                    res.append("refused")
+                except Exception as e:      # noqa
+                    res.append("other:" + type(e).__name__)
+            self.at_end.append((seen, res))
 
 
 class Model(DSOLModel):
@@ -244,6 +259,8 @@ def lifecycle(cmds, args, warm, icmd, iarg):
         # the command took effect
         if cmd in (INIT, CLEANUP):
             mon.log = []
+            mon.at_end = []
+            mon.sim = sim
             model.trace = []
         if cmd == INIT:
             for et in ALL_TYPES:
@@ -261,6 +278,10 @@ def lifecycle(cmds, args, warm, icmd, iarg):
             bad = check_stream(mon.log, warm, R.natural_end and warm <= END)
             if bad:
                 return rt.fail(bad, lambda: f"{where}: stream {mon.log}")
+        for seen, res in mon.at_end:
+            if seen != (RunState.ENDED, ReplicationState.ENDED) or res != ["refused"] * 3:
+                return rt.fail("C04:not-ended-while-end-replication-is-delivered",
+                               lambda: f"{where}: a listener of END_REPLICATION_EVENT sees {seen}; start/step/stop -> {res}")
         if R.rs == RunState.ENDED:
             names = [x for x, _ in mon.log]
             if names.count("END_REPLICATION_EVENT") != 1:
